@@ -5,6 +5,10 @@ from lib.rules import G, require_guards, arg_desc, who_calls, field_writes, writ
 from lib.tables import enumerate_paths, describe, order_edges
 from props.C15 import guard_of
 
+from lib.rules import owned_by  # noqa: E402
+
+from lib.tables import strip_suffix  # noqa: E402
+
 META = dict(
     level='other',
     explanation=(
@@ -26,47 +30,57 @@ META = dict(
 )
 
 
+def _closure_compares_etag(ctx, b, var):
+    """`call:Iterator::any(EtagsIter(..), maybe_not_modified::{closure#N}(etag))`: the closure returns `item.trim() == etag`"""
+    m = re.search(r'\{closure#(\d+)\}', var)
+    if not m:
+        return False
+    for c in ctx.closures(b):
+        if not c.nid.endswith('{closure#%s}' % m.group(1)):
+            continue
+        outs = [p.outcome or '' for p in enumerate_paths(c, ctx.facts) if p.kind == 'return']
+        return bool(outs) and all(re.search(r'PartialEq.*::eq\(', o) and 'upvar:etag' in o and 'starts_with' not in o for o in outs)
+    return False
+
+
+def validator_of(ctx, b, cm):
+    """The validator a path to `not_modified` rests on -> (kind, variable) or None.
+    Kinds: star (`value == "*"`), etag-equal (an If-None-Match item equals the ETag), date>=done (If-Modified-Since not
+    older than the completion time, at full resolution) / date>=done@seconds."""
+    for v, labs in cm.items():
+        base = strip_suffix(v)
+        labs = set(labs)
+        if base.startswith('cmp(') and 'const("*")' in base and labs == {'Equal'}:
+            return ('star', base)
+        if base.startswith('cmp(') and re.search(r'[,(]etag\)$', base) and labs == {'Equal'}:
+            return ('etag-equal', base)
+        if base.startswith('call:Iterator::any(') and 'EtagsIter' in base and labs == {'true'} and _closure_compares_etag(ctx, b, base):
+            return ('etag-equal', base)
+        if base.startswith('cmp(') and 'parse_http_date' in base and 'done' in base:
+            date_first = base.index('parse_http_date') < base.rindex('done')
+            want = {'Equal', 'Greater'} if date_first else {'Equal', 'Less'}
+            if labs and labs <= want:
+                full = 'timestamp' not in base and 'Duration' not in base
+                return ('date>=done' if full else 'date>=done@seconds', base)
+    return None
+
+
 def rule_guards(ctx):
     b = ctx.body('http::response::Response::maybe_not_modified')
     sinks = b.calls('http::response::Response::not_modified')
-    ctx.floor('K4', 'not_modified call sites', len(sinks), 3)
-    # classify the guard of each sink
+    ctx.floor('K4', 'not_modified call sites', len(sinks), 1)
     kinds = set()
-    for s in sinks:
-        ctx.call_sites += 1
-        found = None
-        for sbb in b.switches():
-            o, edges = b.switch_edges(sbb)
-            oe = order_edges(o, edges)
-            if oe is None:
-                continue
-            var, ed = oe
-            pe_eq = [(sbb, tb) for tb, labs in ed.items() if labs and labs <= {'Equal'}]
-            pe_ge = [(sbb, tb) for tb, labs in ed.items() if labs and labs <= {'Equal', 'Greater'} and 'Greater' in labs]
-            pe_le = [(sbb, tb) for tb, labs in ed.items() if labs and labs <= {'Equal', 'Less'} and 'Less' in labs]
-            if 'etag' in var and pe_eq and b.path_avoiding(s.bb, avoid_edges=pe_eq) is None:
-                found = ('etag-equal', var)
-            elif 'const("*")' in var and pe_eq and b.path_avoiding(s.bb, avoid_edges=pe_eq) is None:
-                found = ('star', var)
-            elif 'done' in var and 'parse_http_date' in var:
-                # canonical operand order: call:... < done alphabetically -> date first
-                pe = pe_ge if var.index('parse_http_date') < var.index('done') else pe_le
-                if pe and b.path_avoiding(s.bb, avoid_edges=pe) is None:
-                    # full-resolution comparison?
-                    oc = o
-                    full = oc.kind == 'call' and 'DateTime' in (oc.term['fn'].get('self') or '') and 'timestamp' not in var
-                    found = ('date>=done' if full else 'date>=done@seconds', var)
-        if found is None:
-            # the comparison may live in a small bool helper (fn same_tag(tag, etag) -> bool { tag.trim() == etag })
-            for kind, g in (('etag-equal', G('etag equal', cmp=('etag',), cmp_want={'Equal'})),
-                            ('star', G('star', cmp=('const("*")',), cmp_want={'Equal'}))):
-                e, sw = g.edges(b)
-                if sw and e and b.path_avoiding(s.bb, avoid_edges=e) is None:
-                    found = (kind, 'via helper')
-                    break
-        ctx.check(found is not None, 'K4', 'maybe_not_modified:304-guarded:%s' % (found[0] if found else s.loc()),
-                  '304 at %s only on %s' % (s.loc(), found[0] if found else '?'),
-                  'a 304 Not Modified can be produced at %s without a matching validator' % s.loc(), loc=s.loc())
+    n = 0
+    for p in enumerate_paths(b, ctx.facts, max_visits=2):
+        if not p.called('http::response::Response::not_modified'):
+            continue
+        n += 1
+        s = p.called('http::response::Response::not_modified')[-1]
+        found = validator_of(ctx, b, p.cond_map())
+        ctx.check(found is not None, 'K4', 'maybe_not_modified:304-guarded:%s' % (found[0] if found else 'unguarded'),
+                  '304 only on %s' % (found[0] if found else '?'),
+                  'a 304 Not Modified can be produced at %s without a matching validator (conditions of the path: %s)'
+                  % (s.loc(), sorted(p.cond_map())[-3:]), loc=s.loc())
         if found:
             kinds.add(found[0])
             if found[0] == 'date>=done@seconds':
@@ -75,7 +89,9 @@ def rule_guards(ctx):
                         'issued for the previous version (truncated to seconds) then satisfies `>=` against the still-unchanged '
                         '`created` during the window between installing new data and mark_update_done, and the client gets 304 '
                         'for data it does not have' % found[1][:140], loc=s.loc())
-            ctx.sample(dict(not_modified=s.loc(), guard=found[0]))
+    ctx.floor('K4', 'paths to not_modified', n, 3)
+    ctx.call_sites += len(sinks)
+    ctx.sample(dict(validators=sorted(kinds), paths=n))
     ctx.check({'etag-equal', 'star'} <= kinds and ('date>=done' in kinds or 'date>=done@seconds' in kinds), 'K4',
               'maybe_not_modified:all-validators', 'ETag, * and date validators present', 'validators present: %s' % sorted(kinds))
     if 'date>=done' in kinds:
@@ -111,7 +127,8 @@ def rule_created(ctx):
     ws = [(b, site, how) for b, site, how, f in writers_of_field(ctx, 'payload::history::PayloadHistory') if f == 'created' and how == 'assign']
     ctx.floor('K13', 'assignments to PayloadHistory.created', len(ws), 1)
     for b, site, how in ws:
-        ctx.check(b.nid.endswith('SharedHistory::mark_update_done'), 'K13', 'created-writer:%s' % b.nid, 'created written in mark_update_done',
+        ok, who = owned_by(ctx, b.nid, ['SharedHistory::mark_update_done'])
+        ctx.check(ok, 'K13', 'created-writer:%s' % who, 'created written in mark_update_done',
                   'PayloadHistory.created is written in %s' % b.nid, loc=site.loc())
     b = ctx.body('payload::history::SharedHistory::mark_update_done')
     paths = enumerate_paths(b, ctx.facts)
